@@ -87,7 +87,7 @@ def val_eq(F, a, b):
 class ScenarioIdRoundTrip(Contract):
     prop = "C13"
     target = "commonroad.scenario.scenario.ScenarioID.from_benchmark_id"
-    budget_s = 120
+    budget_s = 600
 
     def __init__(self, coop, country, structure, version=None):
         self.coop, self.country, self.structure, self.version = coop, country, structure, version
@@ -283,7 +283,7 @@ class SolutionBenchmarkId(Contract):
     prop = "C13"
     target = "commonroad.common.solution.CommonRoadSolutionReader._parse_benchmark_id"
     summaries = ("c13_ids",)
-    budget_s = 120
+    budget_s = 600
 
     def __init__(self, k, coop, structure, version=None):
         self.k, self.coop, self.structure, self.version = k, coop, structure, version
